@@ -148,6 +148,12 @@ def explore_symbolic(make_world, make_run, shape, *, seed=0, max_paths=10**9, de
         realisation = "inheritance"
         try:
             st2, c2, W2 = replay(c["assignment"], c["info"])
+            for _retry in range(3):
+                if c2:
+                    break
+                # ovld iterates sets of freshly created function objects: which of several equivalent methods comes first varies from one
+                # build to the next, and some violations only show for one of the orders -- the replay is repeated on fresh objects
+                st2, c2, W2 = replay(c["assignment"], c["info"])
             if not c2:
                 # not reproduced on classes related by inheritance: the same relation realised through ABC.register
                 # (virtual subclasses) is an equally legitimate user hierarchy -- code that reads __mro__ / __bases__
@@ -309,7 +315,10 @@ def known_witness_lines(mod, pid):
             except Exception:  # noqa: BLE001
                 print("HARNESS-ERROR: known-finding witness replay crashed:", traceback.format_exc()[-400:])
         elif w and w.get("kind") == "native":
-            still = bool(getattr(owner, "NATIVE_WITNESSES")[w["program"]]())
+            try:
+                still = bool(getattr(owner, "NATIVE_WITNESSES")[w["program"]]())
+            except Exception:  # noqa: BLE001  the witness program fails in another way than recorded: it certainly does not pass
+                still = True
         if still:
             print(f"KNOWN-FINDING: property={pid} {e['what']}")
             seen.add(e["id"])
